@@ -12,7 +12,6 @@ from collections import Counter
 from copy import deepcopy
 from functools import reduce
 from itertools import count
-from textwrap import dedent
 from types import TracebackType
 
 from .selector import Element, check_element
@@ -1193,18 +1192,25 @@ def transform(fn, proceed, to_instrument=True, set_conformer=True):
         to_instrument = [_GENERIC]
 
     try:
-        src = dedent(inspect.getsource(fn))
+        src = inspect.getsource(fn)
     except (OSError, TypeError) as exc:
         raise TypeError(
             f"transform() needs the source code of {fn}, which is not available"
         ) from exc
+
+    # The source of a method or of a nested function is indented. It is parsed
+    # as the body of a block rather than dedented, which would also strip the
+    # continuation lines of the string literals it contains.
+    nested = 1 if src[:1] in (" ", "\t") else 0
+    if nested:
+        src = "if 1:\n" + src
 
     # Scrape the comments in the function's source and map them to lines.
     comments = {}
     for tok in tokenize.tokenize(_readline_mock(src)):
         if tok.type == tokenize.COMMENT:
             if tok.line.strip().startswith("#"):
-                line = tok.end[0]
+                line = tok.end[0] - nested
                 comments[line + 1] = tok.string[1:].strip()
                 if line in comments:
                     comments[line + 1] = (
@@ -1216,6 +1222,9 @@ def transform(fn, proceed, to_instrument=True, set_conformer=True):
     filename = inspect.getsourcefile(fn)
     tree = ast.parse(src, filename)
     tree = tree.body[0]
+    if nested:
+        tree = tree.body[0]
+        ast.increment_lineno(tree, -1)
     if not isinstance(tree, ast.FunctionDef):
         raise TypeError(
             "transform() only works on functions defined by a plain def"
